@@ -12,6 +12,7 @@ import CtyModel.Lemmas.ValEqRules
 import CtyModel.Lemmas.ValEqSymm
 import CtyModel.Lemmas.d03bLess
 import CtyModel.Lemmas.d03bCaps
+import CtyModel.Lemmas.d03bEncTop
 namespace CtyModel
 namespace C03
 
@@ -1180,6 +1181,138 @@ example : Payload.tieFree (.tuple [.string, .number])
       [.seq [.s "a", .n (Num.ofInt 1 64)], .seq [.s "a", .n (.fin false 1 70 53)], .null, .seq [.s "b;", .null]] = true ∧
     Payload.tieFree w6T [w6a, w6b] = false ∧ Payload.intMember w6T w6a = true ∧ Payload.intMember w6T w6b = true ∧
     Value.sameShape ⟨w6T, w6a⟩ ⟨w6T, w6b⟩ = true := by decide +kernel
+
+
+/-! #### values that CONTAIN SETS (sets of sets, lists of sets, objects with set attributes)
+
+`appendSetHashBytes`, `RawEquals` and `Less` read a set-typed value through its
+iteration order, which `Less` itself defines.  `D03b.canon` writes that reading
+out: every set node becomes the LIST of its members sorted by the specification of
+`Less` (`D03b.lessEnc`), `D03b.enc` turns `set e` into `list e`; and
+`D03b.S_all` proves, by induction over the nesting levels `lvl n` that the model
+functions are tied through, that the transliterations `hashS`/`rawK`/`Lvl.less`/
+`Lvl.iter` compute on a set-containing value exactly what they compute on its
+set-free transliteration.  Carrier (`D03b.G`, `D03b.capFree`): well-formed, no
+mark, quotable strings, no capsule type — sets at ANY depth, members null, unknown
+(any refinement) or known, numbers of any kind. -/
+
+/-- **`RawEquals` on values with sets never fails and is an equivalence relation** —
+the first clause of C03 beyond set-free types: it is `RawEquals` of the
+transliterations. -/
+theorem rawEquals_equiv_with_sets (t : Ty) (hc : D03b.capFree t = true) (a b c : Payload)
+    (ha : D03b.G t a) (hb : D03b.G t b) (hc' : D03b.G t c) :
+    rawEq ⟨t, a⟩ ⟨t, b⟩ = .ok (rawB (D03b.enc t) (D03b.canon t a) (D03b.canon t b)) ∧
+    rawEq ⟨t, a⟩ ⟨t, a⟩ = .ok true ∧
+    rawEq ⟨t, a⟩ ⟨t, b⟩ = rawEq ⟨t, b⟩ ⟨t, a⟩ ∧
+    (rawEq ⟨t, a⟩ ⟨t, b⟩ = .ok true → rawEq ⟨t, b⟩ ⟨t, c⟩ = .ok true → rawEq ⟨t, a⟩ ⟨t, c⟩ = .ok true) := by
+  have pl := D03b.enc_plain t hc
+  have sa := (D03b.canon_G t a ha).1
+  have sb := (D03b.canon_G t b hb).1
+  have sc := (D03b.canon_G t c hc').1
+  simp only [rawEq]
+  rw [D03b.rawEqP_enc hc ha hb, D03b.rawEqP_enc hc ha ha, D03b.rawEqP_enc hc hb ha, D03b.rawEqP_enc hc hb hc',
+    D03b.rawEqP_enc hc ha hc', rawB_refl _ _ pl sa, rawB_symm _ _ _ pl sb sa]
+  refine ⟨rfl, rfl, rfl, fun h1 h2 => ?_⟩
+  simp only [Res.ok.injEq] at h1 h2 ⊢
+  exact rawB_trans _ _ _ _ pl sa sb sc h1 h2
+
+/-- **Hashing a value with sets never fails**, and the hash text is the hash text of
+the transliteration (a set hashes as the list of its members in `Less` order). -/
+theorem hash_with_sets (t : Ty) (hc : D03b.capFree t = true) (a : Payload) (ha : D03b.G t a) :
+    hashBytes ⟨t, a⟩ = hashBytes ⟨D03b.enc t, D03b.canon t a⟩ ∧ ∃ bs, hashBytes ⟨t, a⟩ = .ok bs ∧
+      Value.hash ⟨t, a⟩ = .ok (crc32 bs) := by
+  have g := D03b.canon_G t a ha
+  have e : hashBytes ⟨t, a⟩ = hashBytes ⟨D03b.enc t, D03b.canon t a⟩ := D03b.hashBytesP_enc hc ha
+  obtain ⟨bs, h1, _⟩ := hash_ok (D03b.enc_plain t hc) g.1 g.2.1 g.2.2
+  refine ⟨e, bs, e.trans h1, ?_⟩
+  simp only [Value.hash, e.trans h1, Value.containsMarked, ha.2.1]
+  rfl
+
+/-- **`RawEquals` values with sets hash alike** when their numbers are integers (at
+any precisions): the clause "equal values have the same hash" for values with sets
+at any depth, for the equality `RawEquals`. -/
+theorem rawEquals_same_hash_with_sets (t : Ty) (hc : D03b.capFree t = true) (a b : Payload)
+    (ha : D03b.G t a) (hb : D03b.G t b) (ia : a.intNums = true) (ib : b.intNums = true)
+    (h : rawEq ⟨t, a⟩ ⟨t, b⟩ = .ok true) :
+    hashBytes ⟨t, a⟩ = hashBytes ⟨t, b⟩ ∧ Value.hash ⟨t, a⟩ = Value.hash ⟨t, b⟩ := by
+  rw [(rawEquals_equiv_with_sets t hc a b b ha hb hb).1] at h
+  simp only [Res.ok.injEq] at h
+  have hbytes : hashBytes ⟨t, a⟩ = hashBytes ⟨t, b⟩ := by
+    rw [(hash_with_sets t hc a ha).1, (hash_with_sets t hc b hb).1]
+    exact hashBytesP_eq_of_rawB_ints (D03b.enc_plain t hc) (D03b.canon_G t a ha).1 (D03b.canon_intNums ia)
+      (D03b.canon_G t b hb).1 (D03b.canon_intNums ib) h
+  exact ⟨hbytes, hash_eq_of_hashBytes_eq hbytes (by simp [Value.containsMarked, ha.2.1, hb.2.1])⟩
+
+/-- **The hash text of values with sets is injective up to `sameShape` of the
+transliterations**: equal hash texts ⇒ the same structure with every set read in
+iteration order, equal strings, bools and nulls. -/
+theorem hash_text_injective_with_sets (t : Ty) (hc : D03b.capFree t = true) (a b : Payload)
+    (ha : D03b.G t a) (hb : D03b.G t b) (na : a.numTextsOk = true) (nb : b.numTextsOk = true)
+    (h : Bytes) (h1 : hashBytes ⟨t, a⟩ = .ok h) (h2 : hashBytes ⟨t, b⟩ = .ok h) :
+    sameShape (fun _ _ _ => false) (D03b.enc t) (D03b.canon t a) (D03b.canon t b) = true := by
+  rw [(hash_with_sets t hc a ha).1] at h1
+  rw [(hash_with_sets t hc b hb).1] at h2
+  have pl := D03b.enc_plain t hc
+  have sf : (D03b.enc t).setFree = true := D03b.setFree_of_plain _ pl
+  exact D03b.sameShape_of_hashS_eq _ _ _ sf (D03b.canon_G t a ha).1 (D03b.canon_G t b hb).1
+    (D03b.canon_numTextsOk na) (D03b.canon_numTextsOk nb) (by rw [← D03b.hashBytesP_eq]; exact h1)
+    (by rw [← D03b.hashBytesP_eq]; exact h2)
+
+/-- **`Less` and the iteration of a set value never fail** on such members (sets of
+sets included); `Less` is the specification `lessEnc` on the transliterated
+members and the iteration is the stable sort by it. -/
+theorem setIter_total_with_sets (e : Ty) (hc : D03b.capFree e = true) (vs : List Payload) (hg : D03b.GAll e vs) :
+    setIter e vs = .ok (SetImpl.sortStable (fun x y => D03b.lessEnc e (D03b.canon e x) (D03b.canon e y)) vs) ∧
+    ∀ x ∈ vs, ∀ y ∈ vs, setLess e x y = .ok (ctyLessB e x y) ∧
+      ctyLessB e x y = D03b.lessEnc e (D03b.canon e x) (D03b.canon e y) :=
+  ⟨D03b.setIter_enc hc hg, fun x hx y hy =>
+    D03b.ctyLessB_enc hc (D03b.GAll_iff.mp hg x hx) (D03b.GAll_iff.mp hg y hy)⟩
+
+/-- **Less-sorted iteration is a function of the member set** on the carrier where
+`Less` is a strict total order (`Payload.lessStrictTotal`, decidable: it runs
+`setRules.Less` on all pairs and triples of the members): two set values — of
+strings, of tuples, of SETS, of lists of sets … — that hold the same members in any
+bucket layout iterate identically, are `RawEquals`, and have the same hash text
+and `Hash`. -/
+theorem set_value_function_of_members (e : Ty) (hc : D03b.capFree e = true) (ix iy : List Int) (xs ys : List Payload)
+    (lx : ix.length = xs.length) (ly : iy.length = ys.length) (gx : D03b.GAll e xs) (hperm : xs.Perm ys)
+    (ht : Payload.lessStrictTotal e xs = true) :
+    setIter e xs = setIter e ys ∧
+    rawEq ⟨.set e, .sset ix xs⟩ ⟨.set e, .sset iy ys⟩ = .ok true ∧
+    hashBytes ⟨.set e, .sset ix xs⟩ = hashBytes ⟨.set e, .sset iy ys⟩ ∧
+    Value.hash ⟨.set e, .sset ix xs⟩ = Value.hash ⟨.set e, .sset iy ys⟩ := by
+  have st := D03b.strictTotalB_spec ht
+  have gy : D03b.GAll e ys := D03b.GAll_iff.mpr fun v hv => D03b.GAll_iff.mp gx v (hperm.mem_iff.mpr hv)
+  have hcs : D03b.capFree (.set e) = true := hc
+  have ga : D03b.G (.set e) (.sset ix xs) :=
+    ⟨by simp [Payload.shaped, lx, gx.1], by simpa [Payload.containsMarked] using gx.2.1, by simpa [Payload.quotable] using gx.2.2⟩
+  have gb : D03b.G (.set e) (.sset iy ys) :=
+    ⟨by simp [Payload.shaped, ly, gy.1], by simpa [Payload.containsMarked] using gy.2.1, by simpa [Payload.quotable] using gy.2.2⟩
+  have hcan : D03b.canon (.set e) (.sset ix xs) = D03b.canon (.set e) (.sset iy ys) := by
+    have := D03b.canonSet_perm hc gx hperm st
+    simpa [D03b.canon, D03b.canonSet] using this
+  have hraw : rawEq ⟨.set e, .sset ix xs⟩ ⟨.set e, .sset iy ys⟩ = .ok true := by
+    rw [(rawEquals_equiv_with_sets _ hcs _ _ _ ga gb gb).1, hcan,
+      rawB_refl _ _ (D03b.enc_plain _ hcs) (D03b.canon_G _ _ gb).1]
+  have hbytes : hashBytes ⟨.set e, .sset ix xs⟩ = hashBytes ⟨.set e, .sset iy ys⟩ := by
+    rw [(hash_with_sets _ hcs _ ga).1, (hash_with_sets _ hcs _ gb).1, hcan]
+  exact ⟨D03b.setIter_perm hc gx hperm st, hraw, hbytes,
+    hash_eq_of_hashBytes_eq hbytes (by simp [Value.containsMarked, ga.2.1, gb.2.1])⟩
+
+/-- the carrier is inhabited by a set of sets of strings, a set of lists of sets of
+numbers and a set holding an unknown and a null; the tied tuples of
+`set_order_counterexample` are outside it -/
+example :
+    Payload.lessStrictTotal (.set .string)
+      [.sset [1, 2] [.s "a", .s "b"], .sset [3] [.s "a"], .sset [] [], .null] = true ∧
+    Payload.lessStrictTotal (.list (.set .number))
+      [.seq [.sset [5] [.n (Num.ofInt 1 64)]], .seq [.sset [5, 6] [.n (Num.ofInt 1 64), .n (.fin false 1 70 53)]], .seq []] = true ∧
+    Payload.lessStrictTotal .string [.s "x", .unk .unref, .null] = true ∧
+    Payload.lessStrictTotal w6T [w6a, w6b] = false := by decide +kernel
+
+example : D03b.G (.set (.set .string)) (.sset [7, 8] [.sset [1, 2] [.s "a", .s "b;\""], .sset [3] [.unk (.str .f "p")]]) ∧
+    D03b.capFree (.set (.set .string)) = true :=
+  ⟨⟨by decide +kernel, by decide +kernel, by decide +kernel⟩, rfl⟩
 
 /-! #### capsule types: the `Equals` / `HashKey` parameters instantiated -/
 
